@@ -63,6 +63,9 @@ def rule_wsign(repo, tier):
     if len(rets) != 1:
         raise AnalysisError('C01.WSIGN: so3_Exp.forward has %d returns' % len(rets))
     cat = rets[0].value
+    if isinstance(cat, ast.Name):          # `_ret = torch.cat([...]); return _ret`
+        vs = single.get(cat.id, [])
+        cat = vs[0] if len(vs) == 1 else cat
     parts = cat.args[0].elts if isinstance(cat, ast.Call) and cat.args and isinstance(cat.args[0], (ast.List, ast.Tuple)) else None
     if not parts or not isinstance(parts[-1], ast.Name):
         raise AnalysisError('C01.WSIGN: the real part of the quaternion returned by so3_Exp.forward was not recognised')
